@@ -430,7 +430,7 @@ def thorough_race(ctx):
 
 
 META = {
-    "ready": False,
+    "ready": True,
     "category": "proof",
     "technique": "Rocq inductive invariant over a labelled transition system (unbounded thread pool) + source-order tie + real-goroutine stress and scripted preemption witnesses",
     "text": "Mutual exclusion of the actor turn (at most one turn owner, at most one handler invocation) proved for every reachable state of M-DISPATCH — any number of producers, workers and restarters, any interleaving, any throughput budget, any mailbox pair, PID and grain — for the protocol without an off-turn reset, and up to the first off-turn reset otherwise; the off-turn reset in restartSubtree is refuted by a machine-checked witness that the harness replays on real actors. The model is tied to the current source by dispatchState conformance (vm_compute), an AST-based order/inventory comparison of the protocol operations, gate-mailbox preemption scenarios and stress with an overlap oracle.",
